@@ -270,7 +270,9 @@ class GRUnit(Operation):
         r = self._r
         h = self._h
 
-        dLds = grad[1:].astype(self.type, copy=False)
+        # a copy: `_gru_bptt` accumulates into `dLds` in place, and `grad` can be
+        # the array that the caller passed to `backward`
+        dLds = grad[1:].astype(self.type, copy=True)
 
         const = {"1 - h**2": d_tanh(h), "z*(1 - z)": d_sig(z), "r*(1 - r)": d_sig(r)}
 
